@@ -176,8 +176,9 @@ impl Interp {
                         self.report(
                             loc,
                             PKind::Unexpected {
-                                must_contain: vec![s.clone(), n.to_string()],
-                                any_of: vec![],
+                                // the string (raw or escaped) and its length in characters
+                                must_contain: vec![n.to_string()],
+                                any_of: vec![s.clone(), format!("{s:?}").trim_matches('"').to_string(), serde_json::to_string(s).unwrap_or_default().trim_matches('"').to_string()],
                                 any_of2: vec![],
                                 why: "char from a string of several characters",
                             },
@@ -276,7 +277,13 @@ impl Interp {
                             None => {
                                 self.report(
                                     loc,
-                                    PKind::Unexpected { must_contain: vec![k.clone()], any_of: vec![], any_of2: vec![], why: "unparsable map key" },
+                                    PKind::Unexpected {
+                                        // "naming that key": raw, or in Rust / JSON escaped form
+                                        must_contain: vec![],
+                                        any_of: vec![k.clone(), format!("{k:?}").trim_matches('"').to_string(), serde_json::to_string(k).unwrap_or_default().trim_matches('"').to_string()],
+                                        any_of2: vec![],
+                                        why: "unparsable map key",
+                                    },
                                     false,
                                 );
                                 self.pred.unvisited.insert(x.id);
